@@ -7,7 +7,7 @@ CLAIMED = True
 RULE = ('correspondence c15_text: Text::draw (pixel map on both recording targets, returned position) and Text::bounding_box vs the extracted model, on synthetic '
         'MonoFont records (spacing 0..3, any atlas, see C14) x 3 alignments x 4 baselines x line heights Pixels(0..40)/Percent(0..400) x 16 colour/decoration roles x '
         'strings with 0..4 line breaks as LF or CR LF, empty lines, trailing newline, lone CR (leading, mid-line, trailing), doubled CR, CR CR LF, unmapped characters x small and +-2^20 positions. '
-        'search p_c15 (real built-in fonts, independent arithmetic): per line alignment of the measure_string box (starts at / ends at / centred within half a pixel), '
+        'search p_c15 (real built-in fonts incl. the zero-sized NULL_FONT of MonoTextStyleBuilder::new(), independent arithmetic): per line alignment of the measure_string box (starts at / ends at / centred within half a pixel), '
         'k-th line k*line_height lower, every glyph cell against font.image (C14 reference), draw returns measure_string next position, bounding box = hull of the '
         'line boxes, baseline = Top moved by the documented offset, text with LF = parts drawn separately, CR LF = LF, left-aligned chaining s1 then s2 = s1+s2, Text::new / with_baseline / with_alignment and TextStyle::with_* / default == the builder forms (and render identically).')
 EXHAUSTIVE = {'quick': False, 'thorough': False}
@@ -88,3 +88,9 @@ def search(tier, rng):
         x, y = g.position(rng)
         chars = maps[mi][1]
         yield J('p_c15', name, *g.style(rng, k % 16), *tstyle(rng), x, y, g.lst(multiline(rng, chars)), g.lst(line(rng, chars, 4)))
+    # the zero-sized NULL_FONT (default font of MonoTextStyleBuilder, ASCII mapping) is a built-in font as well, but the
+    # font table lists the FONT_* constants only: run the same statements on it (appended, so the cases above keep their seeds)
+    ascii_chars = list(range(32, 127))
+    for k in range(48 if tier == 'quick' else 480):
+        x, y = g.position(rng)
+        yield J('p_c15', 'null::NULL_FONT', *g.style(rng, k % 16), *tstyle(rng), x, y, g.lst(multiline(rng, ascii_chars)), g.lst(line(rng, ascii_chars, 4)))
